@@ -21,6 +21,16 @@ theorem C20_token_current (H : Bytes → Bytes) (sig cls phone : Bytes) :
     tokenRaw H Yow.Gen.regKey sig cls phone = hmac H (Yow.Gen.regKey.take 64) (sig ++ cls ++ phone) :=
   tokenRaw_is_hmac H Yow.Gen.regKey sig cls phone C20_current_key_length.1
 
+/-- The requests are made for the number without its country code — exactly that prefix is removed, whatever digits
+    follow (the country code's digits may occur again inside the national number) — and their token is the keyed
+    hash of that national number. -/
+theorem C20_request_number (cc nat : Bytes) : nationalOf cc (cc ++ nat) = nat := by
+  simp [nationalOf]
+
+theorem C20_request_token (H : Bytes → Bytes) (sig cls cc nat : Bytes) :
+    requestToken H Yow.Gen.regKey sig cls cc (cc ++ nat) = hmac H (Yow.Gen.regKey.take 64) (sig ++ cls ++ nat) := by
+  simp [requestToken, nationalOf, C20_token_current]
+
 /-- Every byte-string value is percent-encoded so that standard decoding returns it unchanged … -/
 theorem C20_pct_roundtrip_bytes (bs : Bytes) (hb : ∀ b ∈ bs, b < 256) :
     pctDecode (urlencodeBytes bs) = bs := by
